@@ -198,4 +198,22 @@ def c02Run : List TEv :=
 
 example : submitCount 1 c02Run ≤ 1 := by decide
 
+/-- what the run puts out, evaluated: both requests go out under tokens [1] and [2]; the response
+with token [2] from endpoint 5 (request 1 went to 6) is refused with a Reset and not delivered; the
+same from endpoint 6 is delivered as the final result of request 1 and acknowledged; its copy finds
+the token retired and gets a Reset — request 1 has exactly one terminal event, request 0 none -/
+example :
+    ((run (init { exchangeLifetime := 1000, emptyAckDelay := 10 } 500 0 (fun _ => 20)) c02Run).2.map fun o =>
+      match o with
+      | .send t r w => (0, t, r, w.mid, w.token)
+      | .response r w l => (1, r, w.body, if l then 1 else 0, [])
+      | .fail r _ => (2, r, 0, 0, [])
+      | .deliver sv r _ => (3, sv, r, 0, [])
+      | .stop sv => (4, sv, 0, 0, [])) =
+    [(0, 1, 5, 500, [1]), (0, 2, 6, 501, [2]), (0, 3, 5, 900, []), (1, 1, 5, 1, []), (0, 4, 6, 901, []),
+     (0, 5, 6, 902, [])] ∧
+    termCount 1 (run (init { exchangeLifetime := 1000, emptyAckDelay := 10 } 500 0 (fun _ => 20)) c02Run).2 = 1 ∧
+    termCount 0 (run (init { exchangeLifetime := 1000, emptyAckDelay := 10 } 500 0 (fun _ => 20)) c02Run).2 = 0 := by
+  decide +kernel
+
 end Aiocoap.MsgLayer
